@@ -161,12 +161,35 @@ def run(ctx, pid=None):
 
 
 def proof_cov(ctx, mods, thms):
+    """#print axioms for every obligation, one Lean invocation per module (so that one module that no longer builds does not
+    hide the others); a theorem is discharged iff its module builds now and its axioms are within the allowed set."""
     import re
+    from concurrent.futures import ThreadPoolExecutor
+    from .registry import THEOREMS as _T
+    modof = {}
+    for m, t in _T.get(ctx.pid, []):
+        modof.setdefault(t, m)
+    for t in thms:
+        modof.setdefault(t, mods[0] if mods else "")
+    failed = set(common.lean_failed_modules(ctx)) if not ctx.lean_ok else set()
+    reach = common.modules_reaching(failed) if failed else set()
     res = {t: None for t in thms}
-    src = "".join("import %s\n" % m for m in mods) + "".join("#print axioms %s\n" % t for t in thms)
-    path = os.path.join(ctx.dir, "Audit_%s.lean" % ctx.pid)
-    open(path, "w").write(src)
-    rc, out = common.sh(["lake", "env", "lean", path], cwd=common.LEAN, timeout=900)
+    bymod = {}
+    for t in thms:
+        bymod.setdefault(modof[t], []).append(t)
+
+    def audit_one(item):
+        m, ts = item
+        if m in reach:
+            return ""
+        path = os.path.join(ctx.dir, "Audit_%s_%s.lean" % (ctx.pid, m.replace(".", "_")))
+        open(path, "w").write("import %s\n" % m + "".join("#print axioms %s\n" % t for t in ts))
+        rc, out = common.sh(["lake", "env", "lean", path], cwd=common.LEAN, timeout=900)
+        return out
+
+    with ThreadPoolExecutor(max_workers=8) as ex:
+        outs = list(ex.map(audit_one, bymod.items()))
+    out = "\n".join(outs)
     for m in re.finditer(r"'([^']+)' depends on axioms: \[([^\]]*)\]", out, re.S):
         res[m.group(1)] = sorted(a.strip() for a in m.group(2).replace("\n", " ").split(",") if a.strip())
     for m in re.finditer(r"'([^']+)' does not depend on any axioms", out):
@@ -176,15 +199,12 @@ def proof_cov(ctx, mods, thms):
     if hits:
         ctx.log("forbidden tokens in Lean sources:", hits[:5])
         bad = list(thms)
-    if not ctx.lean_ok:
-        # stale .olean files must not count: a module that failed to build is not discharged
-        failed = set(common.lean_failed_modules(ctx))
-        if failed & set(mods) or "QuartzModel.Generated.Facts" in failed:
-            bad = list(thms)
+    if not ctx.lean_ok and not failed:      # the build failed in a way we cannot attribute
+        bad = list(thms)
     ctx.coverage.update({
         "obligations": len(thms), "discharged": len(thms) - len(bad), "theorems": thms, "axioms": res,
-        "undischarged": bad, "forbidden_token_hits": hits,
-        "checker_cmd": "cd /verif/lean && lake build && lake env lean %s" % os.path.relpath(path, common.LEAN),
+        "undischarged": bad, "forbidden_token_hits": hits, "modules_that_failed_to_build": sorted(failed),
+        "checker_cmd": "cd /verif/lean && lake build && for each module M of the obligations: lake env lean <file: import M; #print axioms T for each obligation T of M> (files kept under build/run/%s/Audit_*.lean)" % ctx.pid,
         "trusted_base": ["Lean 4.33.0 kernel", "fact extractor harness/cmd/extract (go/ast + go/types pattern matching)",
                          "Go harness and diff driver (harness/cmd/qh, checks/*.py)",
                          "Lean code generator (only for running the model in the correspondence check)",
